@@ -109,7 +109,8 @@ def _load(key: str) -> bytes:
 
 
 SYNTH_EXT = {"rtf-big-picture": ".rtf", "mbox-raw-8bit-headers": ".mbox", "7z-huge-file-count": ".7z", "7z-huge-stream-count": ".7z", "zip-huge-entry-count": ".zip",
-             "zip-ascii-then-nonascii": ".zip", "mbox-ascii-then-nonascii": ".mbox"}
+             "zip-ascii-then-nonascii": ".zip", "mbox-ascii-then-nonascii": ".mbox",
+             "7z-self-referential-encoded-header": ".7z", "7z-encoded-header-chain": ".7z"}
 
 
 def _synthetic(name: str) -> bytes:
@@ -121,6 +122,21 @@ def _synthetic(name: str) -> bytes:
         small = b"\x89PNG\r\n\x1a\n" + rng.randbytes(2_000)
         pics = "".join("{\\pict\\pngblip\\picw10\\pich10 " + d.hex() + "}" for d in (big, small))
         return ("{\\rtf1\\ansi\\ansicpg1252\\deff0{\\fonttbl{\\f0 Helvetica;}}\\pard qb00001z big picture\\par " + pics + "\\pard qb00002z\\par}").encode("ascii")
+    if name in ("7z-self-referential-encoded-header", "7z-encoded-header-chain"):
+        # an end header that says "the real header is packed (Copy coder) in the stream at ..." and points at itself, or at a second
+        # header saying the same about the first: every checksum is right, unwrapping never reaches a plain header
+        import struct as _st, zlib as _zl
+
+        def enc_header(pos, size):
+            return bytes([0x17, 0x06, pos, 0x01, 0x09, size, 0x00, 0x07, 0x0B, 0x01, 0x00, 0x01, 0x01, 0x00, 0x0C, size, 0x00, 0x00])
+        if name == "7z-self-referential-encoded-header":
+            body, off, hdr = b"", 0, enc_header(0, 18)
+        else:
+            first = enc_header(18, 18)                 # stored at 0: "the header is at 18"  (the end header itself)
+            hdr = enc_header(0, 18)                    # end header at 18: "the header is at 0"
+            body, off = first, 18
+        start = _st.pack("<QQI", off, len(hdr), _zl.crc32(hdr) & 0xFFFFFFFF)
+        return b"7z\xbc\xaf\x27\x1c\x00\x04" + _st.pack("<I", _zl.crc32(start) & 0xFFFFFFFF) + start + body + hdr
     if name == "zip-ascii-then-nonascii":
         import io as _io, zipfile as _zf
         buf = _io.BytesIO()
